@@ -200,7 +200,9 @@ class MacroProgram(ElementProgram):
 
         # Remember whitespace for item repetition
         if self._last is not None:
-            self._whitespace = "\n" + " " * len(self._last.rsplit('\n', 1)[-1])
+            # (tabs and other white space are kept as they are)
+            self._whitespace = "\n" + re.sub(
+                r'\S', " ", self._last.rsplit('\n', 1)[-1])
 
         # Set element-local whitespace
         whitespace = self._whitespace
